@@ -65,3 +65,67 @@ Qed.
 
 Lemma get_info_only c : only is_info (get_info c).
 Proof. unfold get_info. typed_calls. only_walk. Qed.
+
+(** *** the same facts for any class of allowed effects that contains the sub-program's own *)
+Definition incl_class (small big : eff -> bool) : Prop := forall e, small e = true -> big e = true.
+
+Definition is_rand (e : eff) : bool := match e with ERand _ => true | _ => false end.
+Definition is_keygen (e : eff) : bool := match e with EKeyGen => true | _ => false end.
+Definition is_sign (e : eff) : bool := match e with ESign _ _ => true | _ => false end.
+Definition is_find (e : eff) : bool := match e with EFind _ _ => true | _ => false end.
+Definition is_save (e : eff) : bool := match e with ESave _ _ _ _ => true | _ => false end.
+Definition is_update (e : eff) : bool := match e with EUpdate _ => true | _ => false end.
+Definition is_store_info (e : eff) : bool := match e with EStoreInfo => true | _ => false end.
+Definition is_user (e : eff) : bool := match e with EVerifEnabled | ECheckUser _ _ _ => true | _ => false end.
+
+Definition is_verif (e : eff) : bool := match e with EVerifEnabled => true | _ => false end.
+Definition is_presence (e : eff) : bool := match e with EPresenceEnabled => true | _ => false end.
+Definition is_hmac_ev (e : eff) : bool := match e with EHmac _ _ => true | _ => false end.
+
+Section Classes.
+Variable allowed : eff -> bool.
+
+Lemma only_verif : incl_class is_verif allowed -> only allowed verif_enabled.
+Proof. intros H. unfold verif_enabled. cbn [only]. split; [apply H; reflexivity|intros []; exact I]. Qed.
+Lemma only_presence : incl_class is_presence allowed -> only allowed presence_enabled.
+Proof. intros H. unfold presence_enabled. cbn [only]. split; [apply H; reflexivity|intros []; exact I]. Qed.
+Lemma only_hmac k m : incl_class is_hmac_ev allowed -> only allowed (hmac k m).
+Proof. intros H. unfold hmac. cbn [only]. split; [apply H; reflexivity|intros []; exact I]. Qed.
+
+Lemma only_rand n : incl_class is_rand allowed -> only allowed (rand n).
+Proof. intros H. unfold rand. cbn [only]. split; [apply H; reflexivity|intros []; exact I]. Qed.
+Lemma only_keygen : incl_class is_keygen allowed -> only allowed keygen.
+Proof. intros H. unfold keygen. cbn [only]. split; [apply H; reflexivity|intros []; exact I]. Qed.
+Lemma only_sign k m : incl_class is_sign allowed -> only allowed (sign k m).
+Proof. intros H. unfold sign. cbn [only]. split; [apply H; reflexivity|intros []; exact I]. Qed.
+Lemma only_find ids rp : incl_class is_find allowed -> only allowed (find_creds ids rp).
+Proof. intros H. unfold find_creds. cbn [only]. split; [apply H; reflexivity|intros []; exact I]. Qed.
+Lemma only_save p u rp o : incl_class is_save allowed -> only allowed (save p u rp o).
+Proof. intros H. unfold save. cbn [only]. split; [apply H; reflexivity|intros []; exact I]. Qed.
+Lemma only_update p : incl_class is_update allowed -> only allowed (update p).
+Proof. intros H. unfold update. cbn [only]. split; [apply H; reflexivity|intros []; exact I]. Qed.
+Lemma only_store_info : incl_class is_store_info allowed -> only allowed store_info.
+Proof. intros H. unfold store_info. cbn [only]. split; [apply H; reflexivity|intros []; exact I]. Qed.
+Lemma only_get_info c : incl_class is_info allowed -> only allowed (get_info c).
+Proof. intros H. eapply only_weaken; [exact H|apply get_info_only]. Qed.
+Lemma only_make_extensions c rq uv : incl_class is_rand_or_hmac allowed -> only allowed (make_extensions c rq uv).
+Proof. intros H. eapply only_weaken; [exact H|apply make_extensions_only]. Qed.
+Lemma only_get_extensions c pk rq uv : incl_class is_rand_or_hmac allowed -> only allowed (get_extensions c pk rq uv).
+Proof. intros H. eapply only_weaken; [exact H|apply get_extensions_only]. Qed.
+Lemma only_check_user o cred : incl_class is_user allowed -> only allowed (check_user o cred).
+Proof.
+  intros H. assert (only is_user (check_user o cred)).
+  { unfold check_user. typed_calls. only_walk. }
+  eapply only_weaken; [exact H|assumption].
+Qed.
+End Classes.
+
+(** decide a class inclusion between two boolean classes defined by pattern matching *)
+Ltac incl := let e := fresh "e" in intros e; destruct e; cbn; (reflexivity || discriminate || auto).
+
+(** prove [only allowed seg] for the standard segments *)
+Ltac only_seg :=
+  first [ apply only_rand; incl | apply only_keygen; incl | apply only_sign; incl | apply only_find; incl
+        | apply only_save; incl | apply only_update; incl | apply only_store_info; incl
+        | apply only_get_info; incl | apply only_make_extensions; incl | apply only_get_extensions; incl
+        | apply only_check_user; incl | apply only_verif; incl | apply only_presence; incl | apply only_hmac; incl ].
